@@ -347,6 +347,14 @@ def corpus():
     L.append(line_sgd(0.125, 0.5, True, [3.0], range(1, 121), mul(C(2.0), powi(P(0), 2))))
     L.append(line_sgd(1e-3, 0.0, False, [3e-14, -1e-14], range(1, 41), add(powi(P(0), 2), mul(C(2.25), powi(P(1), 2)))))
     L.append(line_adam(1e-17, 0.9, 0.999, 1e-8, [1e-14], range(1, 31), powi(P(0), 2)))
+    # seeded change C10g (hand-written Clone resetting the betas): a configured Adam, directly and through .clone()
+    L.append('adam 3fb466c9d7fbb6e1 3fe5b8a255db2cab 3fd079cdf25fd3b7 3ddb7cdfd9d7bdbb 1 3ff75c28f5c28f5c 15 1 2 3 4 5 6 7 8 9 10 11 12 13 14 15 6 c3ff0000000000000 p0 c3fe0000000000000 sub powi2 mul')
+    L.append('adamr clone 3fb466c9d7fbb6e1 3fe5b8a255db2cab 3fd079cdf25fd3b7 3ddb7cdfd9d7bdbb 1 3ff75c28f5c28f5c 15 1 2 3 4 5 6 7 8 9 10 11 12 13 14 15 6 c3ff0000000000000 p0 c3fe0000000000000 sub powi2 mul')
+    # seeded change C10f (NaN gain ratio accepted): exp fit whose first trial overflows / whose Jacobian vanishes
+    L.append(line_lm(0.0, 0.0, 1e-300, [2.1, 100.0], [1.67, 5.7, 12.81, 28.06, 33.5], [2.0, 1.9, 1.7, 1.4, 1.3], range(0, 6),
+                     mul(P(0), exp(mul(P(1), X)))))
+    L.append(line_lm(1e-6, 1e-6, 1e-2, [1.5, -200.0], [4.5, 5.0, 6.25, 7.0, 9.0, 11.5], [2.0, 1.9, 1.7, 1.6, 1.3, 1.1], range(0, 6),
+                     mul(P(0), exp(mul(P(1), X)))))
     # Adam::new rejects beta <= 0
     L.append(line_adam(0.1, 0.0, 0.999, 1e-8, [1.0], [1], sq))
     L.append(line_adam(0.1, 0.9, -0.5, 1e-8, [1.0], [1], sq))
@@ -1196,7 +1204,11 @@ def check_lm(t, reply_toks, M, stats, FI=None):
                     drss = mp.mpf(0)
                     thI = [FI.num(v) for v in th]
                     for i_, (x_, y_) in enumerate(zip(xs, ys)):
-                        fv, _ = P_.valgrad(thI, FI.num(x_), FI)
+                        try:
+                            fv, _ = P_.valgrad(thI, FI.num(x_), FI)
+                        except Exception:     # out of the f64 range somewhere inside the model: not judged
+                            drss = None
+                            break
                         if not IV.ok(fv):
                             drss = None
                             break
@@ -1295,7 +1307,8 @@ def oracle(lines, impl):
         # determinism / route independence: the same optimizer on the same problem gives the same reply, however the
         # optimizer object was obtained (new, clone, default, with_stepsize, set_stepsize, public fields)
         if l in seen and impl[seen[l]].strip() != rep.strip() and not impl[seen[l]].startswith("#"):
-            fails.append(Failure(i, t[0] + "-nondeterministic", "same request as line %d (route %s), different reply" % (seen[l], route)))
+            key = t[0] + ("-nondeterministic" if route == "new" else "-route-dependent")
+            fails.append(Failure(i, key, "same optimizer and problem as line %d, obtained through route `%s`: different reply" % (seen[l], route)))
             continue
         seen.setdefault(l, i)
         kind = t[0]
